@@ -18,6 +18,7 @@ let table : (Stdlib.String.t * (z list -> z list)) list = [   (* Stdlib.: the ex
   ("iskw", run_iskw);
   ("metaedit", run_metaedit);
   ("ecoremm", run_ecoremm);
+  ("namefrag", run_namefrag);
   ("xmiattr", run_xmiattr);
   ("jsonval", run_jsonval);
   ("refload", run_refload);
